@@ -167,6 +167,8 @@ type Sess struct {
 	AfterInjected func(o Op)
 	Yields        int // yield points seen in the last maintenance call
 	lastDone      bool
+	// WalStates logs the projected state of the write-ahead log after every call (strict mode, spec/TraceWal.tla).
+	WalStates bool
 	// NoListing suppresses the directory listing after Compact (golden directories written by the pinned
 	// version may contain side files that version leaked).
 	NoListing bool
@@ -326,6 +328,16 @@ func (s *Sess) Open() error {
 	db, o := OpenObserved(s.Cfg, s.Root, s.Dir, s.Universe)
 	s.DB = db
 	s.R.Emit(o.Event("reopened"))
+	if db != nil && s.WalStates {
+		after := "open"
+		if o.Recovered {
+			after = "recovered"
+		}
+		s.R.Emit(s.WalState(after, nil))
+		if pogreb.VerifPinnedSeed != nil {
+			s.R.Emit(s.IdxState(after, "", nil))
+		}
+	}
 	if db != nil {
 		// information for the reader of a recording (not judged): the shape of the reloaded index
 		if d, err := db.VerifIndexDump(); err == nil {
@@ -613,6 +625,23 @@ func (s *Sess) Do(o Op) error {
 	}
 	if listing != nil {
 		s.R.Emit(listing)
+	}
+	if s.WalStates && err == nil && s.DB != nil && o.Op != "close" && o.Op != "next" {
+		var rec []interface{}
+		switch o.Op {
+		case "put":
+			rec = []interface{}{"put", inv["k"], inv["v"], 10 + inv["kl"].(int) + inv["vl"].(int)}
+		case "del":
+			rec = []interface{}{"del", inv["k"], "", 10 + len(key)} // (scribbled, but the length stays)
+		}
+		s.R.Emit(s.WalState(o.Op, rec))
+		if pogreb.VerifPinnedSeed != nil {
+			if o.Op == "put" || o.Op == "del" {
+				s.R.Emit(s.IdxState(o.Op, inv["k"].(string), o.key()))
+			} else {
+				s.R.Emit(s.IdxState(o.Op, "", nil))
+			}
+		}
 	}
 	if s.Hold {
 		s.ops++
